@@ -27,7 +27,7 @@
 -/
 import Keto.Model.Watcher
 import Keto.Proofs.WatcherLemmas
-import Keto.Proofs.FactsTie
+import Keto.Proofs.FactsTieConc
 
 namespace Keto
 open W
